@@ -222,7 +222,8 @@ def inputs (own : String) (v : Snap) (s : State) (e : Env) : In :=
     deletedEvent := false,
     consistent := e.consistent && s.mem.isEmpty,        -- patch_initially_empty
     spawnDelays := s.dmnLive && (v.marked || !v.matchDmn),  -- stop_daemons / match_daemons still wait
-    changeDelays := (v.matchDel && !(s.delDone && !e.delReset)) || e.otherDelays }
+    -- the deletion handlers are selected (and can be unfinished) only for the DELETE cause: marked and blocked
+    changeDelays := (v.marked && decide (own ∈ v.fins) && v.matchDel && !(s.delDone && !e.delReset)) || e.otherDelays }
 
 /-- A cycle starts on an event body: never newer than the server's state, and equal to it if of the same
 version (every change of what `Snap` shows stores a new version). -/
